@@ -62,7 +62,7 @@ func c17bScenarios() []*Scenario {
 				}
 			}
 			for _, p := range passes {
-				fmt.Fprintf(&sb, "pass[%d-%d];", p.Start, p.End)
+				fmt.Fprintf(&sb, "pass[spawned %d, ran %d-%d];", p.Spawn, p.Start, p.End)
 			}
 			obs := sb.String()
 			if acc == 0 {
@@ -85,15 +85,18 @@ func c17bScenarios() []*Scenario {
 			}
 			sort.Slice(accepted, func(i, j int) bool { return accepted[i].ret < accepted[j].ret })
 			sort.Slice(passes, func(i, j int) bool { return passes[i].Start < passes[j].Start })
-			if len(accepted) >= 2 {
-				// the first accepted request's pass is the first pass that starts. A pass is surely in progress from the
-				// return of its request until its goroutine ends; a later request whose whole [call,return] interval lies
-				// inside that window was accepted while the pass was in progress.
-				for _, q := range accepted[1:] {
-					if len(passes) == 0 || (q.call > accepted[0].ret && (passes[0].End == 0 || q.ret < passes[0].End)) {
-						return &Mismatch{Op: "gc-requests", Where: "requests", Want: "second request refused while a pass is in progress", Got: obs, Class: "gc-second-request-accepted"}, obs
-					}
+			// The goroutine of a pass is spawned right after its request was accepted and ends right after the pass has
+			// unregistered itself, so [spawn, end] of the pass goroutines (observed by the scheduler) are the in-progress
+			// windows: a pass spawned inside the window of another one means its request was accepted while that pass was
+			// in progress (with an atomic check-and-register this cannot happen).
+			sort.Slice(passes, func(i, j int) bool { return passes[i].Spawn < passes[j].Spawn })
+			for i := 0; i+1 < len(passes); i++ {
+				if passes[i].End == 0 || passes[i+1].Spawn < passes[i].End {
+					return &Mismatch{Op: "gc-requests", Where: "requests", Want: "second request refused while a pass is in progress", Got: obs, Class: "gc-second-request-accepted"}, obs
 				}
+			}
+			if len(passes) != len(accepted) {
+				return &Mismatch{Op: "gc-requests", Where: "requests", Want: "one pass per accepted request", Got: obs, Class: "gc-accepted-without-pass"}, obs
 			}
 			if g := m.St.VerifLastGC(0); g != nil && g.Err != nil {
 				return &Mismatch{Op: "gc", Where: "pass", Want: "no error", Got: g.Err.Error(), Class: "gc-error"}, obs
@@ -349,9 +352,16 @@ func c17aLayout(l gcLayoutSpec, r *Report) *Mismatch {
 			if id >= begin && id <= end {
 				continue
 			}
-			// outside the range: only appends to ONE earlier file
-			old := len(before[id])
-			okAppend := id < begin && ((mu.Op == "write" && int(mu.Off) >= old) || (mu.Op == "create" && old == 0))
+			// outside the range: an EXISTING file may only be appended to, and only one such file; slots that held no
+			// file before the pass (gaps below the range) may receive fresh files - nothing existing is rewritten there
+			old, existed := before[id]
+			if !existed || len(old) == 0 {
+				if id < begin && (mu.Op == "create" || mu.Op == "write") {
+					continue
+				}
+				return &Mismatch{Op: op, Where: "mutation log", Want: fmt.Sprintf("nothing outside [%d,%d] except appends to one earlier file / fresh files in gaps below the range", begin, end), Got: mutString(mu), Class: "gc-outside-range"}
+			}
+			okAppend := id < begin && mu.Op == "write" && int(mu.Off) >= len(old)
 			if !okAppend || (appendOnly >= 0 && appendOnly != id) {
 				return &Mismatch{Op: op, Where: "mutation log", Want: fmt.Sprintf("nothing outside [%d,%d] except appends to one earlier file", begin, end), Got: mutString(mu), Class: "gc-outside-range"}
 			}
